@@ -449,6 +449,9 @@ def roundtrip_program_strategy(tier: str):
             ["one", "one", "list", "nested", "plain"]), "kind": st.sampled_from(["obj", "data", "pg", "group", "dhg"])}),
             min_size=1, max_size=3),
         "allow_known": st.sampled_from([False] * 9 + [True]),
+        # a user session on the file that was read back: values assigned through set_data_value, then written again
+        "edits": st.lists(st.fixed_dictionaries({"form": st.integers(0, 9),
+                                                 "how": st.sampled_from(["stored", "stored", "fresh"])}), max_size=3),
     })
 
 
@@ -1032,9 +1035,91 @@ def run_roundtrip(program: dict, res, pid: str = "C14"):
                                                  f"{snap_kind(before)}"),
                              f"parameter {name!r} ({meta['vclass']}): generated {meta['expected']} but data is "
                              f"{before}")
+        if program.get("edits") and not res.fails:
+            run_edit_session(program, built, back, form_names, res, pid)
         return stats
     finally:
         env.close_quietly(opened, ws)
+
+
+EDITABLE_KINDS = ("bool", "integer", "float", "string", "datavalue")
+
+
+def run_edit_session(program, built, ifile, form_names, res, pid):
+    """The file that was read back is edited through set_data_value and written again: what the in-memory
+    InputFile holds for the edited parameters before the second write is what a reader of the second file gets.
+
+    Only forms whose enabled state is their own are edited (an `optional` form with an `enabled` member, or a
+    data-or-value form; no group, no dependency, not referenced by another form's dependency), with the value the
+    form already stores (re-enabling with the stored number, switching a data-or-value form back to its number box)
+    or a neighbour of it."""
+    import math
+
+    from geoh5py.ui_json import InputFile
+
+    depended = {f.get("dependency") for f in ifile.ui_json.values() if isinstance(f, dict)}
+    cands = []
+    for name in form_names:
+        meta = built.meta[name]
+        form = ifile.ui_json.get(name)
+        if (not isinstance(form, dict) or meta["kind"] not in EDITABLE_KINDS or meta["unspecified"] or meta["lookalike"]
+                or "group" in form or "dependency" in form or name in depended):
+            continue
+        if not ((form.get("optional") and "enabled" in form) or "isValue" in form):
+            continue
+        stored = form.get("value")
+        if type(stored) not in (bool, int, float, str) or (isinstance(stored, float) and not math.isfinite(stored)):
+            continue
+        if isinstance(stored, str) and (stored == "" or classify_string(stored) != "str" or classify_string(stored + "x") != "str"):
+            continue
+        cands.append(name)
+    if not cands:
+        return
+    assigned = {}
+    for edit in program["edits"]:
+        name = cands[edit["form"] % len(cands)]
+        form = ifile.ui_json[name]
+        stored = form["value"]
+        value = stored
+        if edit["how"] == "fresh":
+            value = (not stored) if isinstance(stored, bool) else (stored + "x") if isinstance(stored, str) else stored + 1
+        state = ("disabled" if form.get("enabled") is False else "property-mode" if form.get("isValue") is False
+                 else "enabled")
+        try:
+            ifile.set_data_value(name, value)
+        except Exception as exc:
+            res.label(f"edit-rejected:{type(exc).__name__}")
+            continue
+        assigned[name] = (value, edit["how"], state)
+        res.label(f"edit:{edit['how']}:{state}")
+    if not assigned:
+        return
+    mem = {name: snap(ifile.data[name]) for name in assigned}
+    for name, (value, how, state) in assigned.items():
+        if mem[name] != snap(value):
+            res.fail(tagged(built, name, f"{pid}/edit-not-in-data/{built.meta[name]['kind']}/{how}/{state}"),
+                     f"set_data_value({name!r}, {value!r}) accepted but data holds {mem[name]}")
+            return
+    out_dir = env.new_dir("uj2")
+    try:
+        out = ifile.write_ui_json(name="edited.ui.json", path=str(out_dir))
+    except Exception as exc:
+        res.fail(f"{pid}/write-raises-after-edit/{where_raised(exc)}", f"{type(exc).__name__}: {str(exc)[:300]}")
+        return
+    try:
+        again = InputFile.read_ui_json(out)
+        data2 = again.data
+    except Exception as exc:
+        res.fail(f"{pid}/read-raises-after-edit/{where_raised(exc)}", f"{type(exc).__name__}: {str(exc)[:300]}")
+        return
+    res.count("edited_parameters_compared", len(assigned))
+    for name, (value, how, state) in assigned.items():
+        got = snap(data2.get(name))
+        if got != mem[name]:
+            res.fail(tagged(built, name, f"{pid}/edit-lost/{built.meta[name]['kind']}/{how}/{state}"),
+                     f"parameter {name!r} was {state}; set_data_value({value!r}) then write: data before write "
+                     f"{mem[name]} != after read {got}")
+            return
 
 
 def tagged(built, name, sig: str) -> str:
@@ -1184,7 +1269,8 @@ T_OPTIONAL = ["absent", True, False]
 T_ENABLED = ["absent", True, False]
 T_GROUP = ["none", "member/noowner", "ownerT", "ownerF"] + [f"member/owner{g}/{s}" for g in "TF"
                                                              for s in ("T", "F", "absent")]
-T_DEP = [("none", "absent")] + [(d, t) for d in ("bool/T", "bool/F", "opt/T", "opt/F", "opt/absent")
+# boolx = a boolean driver that spells out "optional": false (as Geoscience ANALYST writes it)
+T_DEP = [("none", "absent")] + [(d, t) for d in ("bool/T", "bool/F", "boolx/T", "boolx/F", "opt/T", "opt/F", "opt/absent")
                                 for t in ("absent", "enabled", "disabled")]
 T_KINDS = ["float", "choice"]
 
@@ -1238,8 +1324,10 @@ def build_table_forms(row):
     dep = row["dep"]
     if dep != "none":
         dkind, state = dep.split("/")
-        if dkind == "bool":
+        if dkind in ("bool", "boolx"):
             driver = templates.bool_parameter(value=state == "T", label="driver")
+            if dkind == "boolx":
+                driver["optional"] = False
         else:
             driver = templates.float_parameter(value=1.0, label="driver")
             driver["optional"] = True
@@ -2086,7 +2174,8 @@ def copy_tree(value):
     return value
 
 
-IF_KEYS = ["f", "fo", "s", "c", "o", "d", "a", "b"]
+# "od": object and data re-assigned together through the data setter (another parent object, a channel of it or not)
+IF_KEYS = ["f", "fo", "s", "c", "o", "d", "a", "b", "od", "od"]
 
 
 def hist_inputfile(program, res, pid, state):
@@ -2119,16 +2208,25 @@ def hist_inputfile(program, res, pid, state):
         used = InputFile(ui_json=copy_tree(uj), validations=deepcopy(extra))
         used.data  # pylint: disable=pointless-statement
         unknown = _uuid.UUID(int=424242, version=4)
-        child = [d["uid"] for d in obj0["data"]]
-        stranger = obj1["data"][0]["uid"]
+        objs = [obj0, obj1]
+        cur = 0  # index of the object the forms currently select
         enabled_at_start = {k: f.get("enabled", True) for k, f in used.ui_json.items() if isinstance(f, dict)}
         for call in program["calls"]:
             key = IF_KEYS[call["k"] % len(IF_KEYS)]
             label, value = POOL_VALUES[call["v"] % len(POOL_VALUES)]
             number = dec(call.get("num", {"t": "float", "v": "1.5"}))
-            if key == "o":
-                label, value = [("same", obj0["uid"]), ("unknown", unknown), ("ill-formed", "not-a-uuid"),
-                                ("int5", 5), ("entity", opened.get_entity(obj0["uid"])[0])][call["v"] % 5]
+            child = [d["uid"] for d in objs[cur]["data"]]
+            stranger = objs[1 - cur]["data"][0]["uid"]
+            pair = None
+            if key == "od":
+                i, j = (call["v"] // 2) % 2, call["v"] % 2
+                pair = (objs[i]["uid"], objs[j]["data"][call["op"] % len(objs[j]["data"])]["uid"])
+                label, value = f"obj{i}+data-of-obj{j}", pair
+                res.label("inputfile-pair:" + ("other-object" if i != cur else "same-object") +
+                          ("/own-channel" if i == j else "/foreign-channel"))
+            elif key == "o":
+                label, value = [("same", objs[cur]["uid"]), ("unknown", unknown), ("ill-formed", "not-a-uuid"),
+                                ("int5", 5), ("entity", opened.get_entity(objs[cur]["uid"])[0])][call["v"] % 5]
             elif key == "d":
                 label, value = [("child", child[call["op"] % len(child)]), ("stranger", stranger),
                                 ("unknown", unknown), ("ill-formed", "not-a-uuid"), ("int5", 5),
@@ -2136,11 +2234,13 @@ def hist_inputfile(program, res, pid, state):
                                 ("stranger-entity", opened.get_entity(stranger)[0])][call["v"] % 7]
             elif key in ("f", "fo", "a", "b") and call["v"] % 3 == 0:
                 label, value = "number", number
-            use_setter = call["op"] % 2 == 0
+            use_setter = call["op"] % 2 == 0 or pair is not None
             op = "data_setter" if use_setter else "set_data_value"
-            form_now = used.ui_json[key]
+            form_now = used.ui_json["d" if pair else key]
             # ---- by construction
-            if value is None:
+            if pair is not None:
+                expect = "accept" if label.endswith(label[3]) else "reject"
+            elif value is None:
                 expect = "accept" if form_now.get("enabled", True) is False else "reject"
             elif key in ("f", "fo", "a", "b"):
                 expect = "accept" if isinstance(value, float) else ("unspecified" if isinstance(value, list)
@@ -2174,8 +2274,12 @@ def hist_inputfile(program, res, pid, state):
             before = (uj_view(used.data), uj_view(used.ui_json), rules_view(used.validations))
             rules_before = rules_view(used.validators.validations)
 
-            def perform(target, key=key, value=value, use_setter=use_setter):
-                if use_setter:
+            def perform(target, key=key, value=value, use_setter=use_setter, pair=pair):
+                if pair is not None:
+                    data = dict(target.data)
+                    data["o"], data["d"] = pair
+                    target.data = data
+                elif use_setter:
                     data = dict(target.data)
                     data[key] = value
                     target.data = data
@@ -2208,6 +2312,8 @@ def hist_inputfile(program, res, pid, state):
                 res.fail(sig + (f"/known:{known}" if known else ""),
                          f"{what} changed the validators' rule table")
             same = compare_call(res, pid, "inputfile", op, got, fresh, what, known)
+            if pair is not None and got[0] == "accept" and expect == "accept":
+                cur = int(label[3])
             if got[0] != "accept":
                 after = (uj_view(used.data), uj_view(used.ui_json), rules_view(used.validations))
                 for name, a, b in zip(("data", "ui_json", "validations"), before, after):
